@@ -14,6 +14,7 @@ import tempfile
 HERE = os.path.dirname(os.path.abspath(__file__))
 VERIF = os.path.dirname(HERE)
 sys.path.insert(0, HERE)
+import common
 REPO = "/repo"
 
 
@@ -45,9 +46,66 @@ def apply_edits(dst, edits):
         open(p, "w").write(s.replace(old, new))
 
 
-def run_check(prop, root):
-    p = subprocess.run([os.path.join(VERIF, "check"), prop, "--root", root], capture_output=True, text=True)
-    return p.returncode, p.stdout + p.stderr
+def one(m, a):
+    """Returns (lines to print, number of problems)."""
+    import mutants
+    lines = []
+    bad = 0
+    base, dst = common.make_copy("casslint-mut-")
+    try:
+        try:
+            apply_edits(dst, m.get("edits", []))
+            apply_sed(dst, m.get("sed", []))
+            if m.get("patch"):
+                q = subprocess.run(["patch", "-p1", "-s", "-i", os.path.join(HERE, m["patch"])], cwd=dst,
+                                   capture_output=True, text=True)
+                if q.returncode != 0:
+                    raise ValueError("patch does not apply: %s" % (q.stdout + q.stderr)[:200])
+        except ValueError as e:
+            return ["STALE       %-40s %s" % (m["name"], e)], 1
+        if a.benign:
+            props = m.get("props") or mutants.ALL_PROPS
+            res = common.run_props(dst, props)
+            for prop in props:
+                rc, out = res[prop]
+                if "does not build" in out:
+                    bad += 1
+                    lines.append("NOBUILD     %-40s %s" % (m["name"], prop))
+                    lines.append(out[-800:])
+                    break
+                if rc != 0:
+                    bad += 1
+                    lines.append("FALSE-ALARM %-40s %s" % (m["name"], prop))
+                    lines.append("\n".join("      " + l for l in out.splitlines() if "FAIL" in l)[:1500] or out[-600:])
+                elif a.v:
+                    lines.append("silent      %-40s %s" % (m["name"], prop))
+            lines.append("benign done %-40s" % m["name"])
+        else:
+            props = []
+            for (prop, _n) in m["expect"]:
+                if prop not in props:
+                    props.append(prop)
+            res = common.run_props(dst, props)
+            for (prop, needle) in m["expect"]:
+                rc, out = res[prop]
+                hit = [l for l in out.splitlines() if "FAIL" in l and needle in l]
+                if "does not build" in out:
+                    bad += 1
+                    lines.append("NOBUILD     %-40s %s" % (m["name"], prop))
+                    lines.append(out[-600:])
+                elif rc == 1 and hit:
+                    lines.append("caught      %-40s %s  %s" % (m["name"], prop, hit[0].strip()[:150]))
+                else:
+                    bad += 1
+                    lines.append("MISSED      %-40s %s (wanted %s; rc=%d)" % (m["name"], prop, needle, rc))
+                    if a.v:
+                        lines.append(out)
+    finally:
+        if not a.keep:
+            shutil.rmtree(base, ignore_errors=True)
+        else:
+            lines.append("kept " + dst)
+    return lines, bad
 
 
 def main():
@@ -58,62 +116,16 @@ def main():
     ap.add_argument("-v", action="store_true")
     a = ap.parse_args()
     import mutants
+    from concurrent.futures import ThreadPoolExecutor
     todo = mutants.BENIGN if a.benign else mutants.MUTANTS
+    todo = [m for m in todo if not a.only or a.only in m["name"]]
     bad = 0
-    for m in todo:
-        if a.only and a.only not in m["name"]:
-            continue
-        base, dst = make_copy(m["name"])
-        try:
-            try:
-                apply_edits(dst, m.get("edits", []))
-                apply_sed(dst, m.get("sed", []))
-                if m.get("patch"):
-                    q = subprocess.run(["patch", "-p1", "-s", "-i", os.path.join(HERE, m["patch"])], cwd=dst,
-                                       capture_output=True, text=True)
-                    if q.returncode != 0:
-                        raise ValueError("patch does not apply: %s" % (q.stdout + q.stderr)[:200])
-            except ValueError as e:
-                bad += 1
-                print("STALE       %-40s %s" % (m["name"], e))
-                continue
-            if a.benign:
-                props = m.get("props") or mutants.ALL_PROPS
-                for prop in props:
-                    rc, out = run_check(prop, dst)
-                    if "does not build" in out:
-                        bad += 1
-                        print("NOBUILD     %-40s %s" % (m["name"], prop))
-                        print(out[-800:])
-                        break
-                    if rc != 0:
-                        bad += 1
-                        print("FALSE-ALARM %-40s %s" % (m["name"], prop))
-                        print("\n".join("      " + l for l in out.splitlines() if "FAIL" in l)[:1500])
-                    elif a.v:
-                        print("silent      %-40s %s" % (m["name"], prop))
-                if a.v or True:
-                    print("benign done %-40s" % m["name"])
-            else:
-                for (prop, needle) in m["expect"]:
-                    rc, out = run_check(prop, dst)
-                    hit = [l for l in out.splitlines() if "FAIL" in l and needle in l]
-                    if "does not build" in out:
-                        bad += 1
-                        print("NOBUILD     %-40s %s" % (m["name"], prop))
-                        print(out[-600:])
-                    elif rc == 1 and hit:
-                        print("caught      %-40s %s  %s" % (m["name"], prop, hit[0].strip()[:150]))
-                    else:
-                        bad += 1
-                        print("MISSED      %-40s %s (wanted %s; rc=%d)" % (m["name"], prop, needle, rc))
-                        if a.v:
-                            print(out)
-        finally:
-            if not a.keep:
-                shutil.rmtree(base, ignore_errors=True)
-            else:
-                print("kept", dst)
+    with ThreadPoolExecutor(max_workers=common.JOBS) as ex:
+        for lines, nb in ex.map(lambda m: one(m, a), todo):
+            bad += nb
+            for l in lines:
+                print(l)
+            sys.stdout.flush()
     print("selftest: %d problem(s)" % bad)
     return 1 if bad else 0
 
